@@ -210,7 +210,7 @@ theorem intEnd_ok (p : PState) (hg : Good p) (hn : needsProp p.state p.prev = tr
     | true => simp only [if_true]; exact post_errRet _ hb
     | false =>
       simp only [Bool.false_eq_true, if_false]
-      generalize (if (buf p).length > 9 then JV.num (buf p) else JV.int (myatoiz (buf p))) = v
+      generalize (if (buf p).length > Gen.Xdl.intSplit then JV.num (buf p) else JV.int (myatoiz (buf p))) = v
       obtain ⟨q, hq, hgq, hi, ha, _⟩ := scalar_ok p v hg hn
       rw [hq]
       exact post_again_good _ q hgq hi ha
